@@ -86,10 +86,14 @@ def _nobs(ndim, which):
         return [[0, 0]] * ndim
     if which == 'T':
         return [[1, 1]] * ndim
-    if which == 'LR':           # mixed: left on boundary in axis 0, right on boundary in the last
+    if which == 'L':
+        return [[1, 0]] * ndim
+    if which == 'R':
+        return [[0, 1]] * ndim
+    if which in ('LR', 'RL'):   # mixed: one side on the boundary in axis 0, the other in the last
         res = [[0, 0] for _ in range(ndim)]
-        res[0][0] = 1
-        res[-1][1] = 1
+        res[0][0 if which == 'LR' else 1] = 1
+        res[-1][1 if which == 'LR' else 0] = 1
         return res
     raise KeyError(which)
 
@@ -175,6 +179,7 @@ def configs(tier):
     d_f64 = {'nob': 'F', 'dtype': 'float64'}
     d_nob = {'nob': 'T', 'dtype': 'float64'}
     d_lr = {'nob': 'LR', 'dtype': 'float64'}
+    d_l = {'nob': 'L', 'dtype': 'float64'}
     d_c = {'nob': 'F', 'dtype': 'complex128'}
     d_f32 = {'nob': 'F', 'dtype': 'float32'}
     d_w = {'nob': 'F', 'dtype': 'float64', 'w': 2.0}
@@ -182,17 +187,17 @@ def configs(tier):
     ops = []
     if not th:
         ops += _op_block(range(1, 5), range(1, 8), 1, [d_f64, d_nob, d_c],
-                         [None, 'T', 'LR'], ['ran_shp', 'range'], wopts=(None, 3.0))
+                         [None, 'T', 'L', 'R'], ['ran_shp', 'range'], wopts=(None, 3.0))
         ops += _op_block([2, 3], range(1, 5), 2, [d_f64], [None], ['ran_shp', 'range'])
         ops += _op_block([2, 3], range(1, 5), 2, [d_nob, d_nu], [None, 'T'], ['ran_shp'],
                          offsets='default')
     else:
         ops += _op_block(range(1, 6), range(1, 10), 1,
-                         [d_f64, d_nob, d_lr, d_c, d_f32, d_w],
-                         [None, 'F', 'T', 'LR'], ['ran_shp', 'range'],
+                         [d_f64, d_nob, d_l, d_c, d_f32, d_w],
+                         [None, 'F', 'T', 'L', 'R'], ['ran_shp', 'range'],
                          wopts=(None, 3.0, 'array'))
         ops += _op_block([1, 2, 3], range(1, 6), 2, [d_f64, d_nob, d_lr],
-                         [None, 'T', 'LR'], ['ran_shp', 'range'], wopts=(None, 3.0))
+                         [None, 'T', 'LR', 'RL'], ['ran_shp', 'range'], wopts=(None, 3.0))
         ops += _op_block([1, 2, 3], range(1, 6), 2, [d_nu, d_c, d_w], [None], ['ran_shp'])
         ops += _op_block([2], [1, 2, 3], 3, [d_f64], [None], ['ran_shp', 'range'])
     cfgs += ops
@@ -543,6 +548,14 @@ def _diag_weights(space):
     return w
 
 
+class _InputModified(Exception):
+    pass
+
+
+def _exc_symptom(e):
+    return 'input_modified' if isinstance(e, _InputModified) else 'raises:' + type(e).__name__
+
+
 def _op_matrix(op, rows, dom_shape):
     """Apply ``op`` to every row (flat input); returns array of flat outputs."""
     outs = []
@@ -551,7 +564,8 @@ def _op_matrix(op, rows, dom_shape):
         keep = x.asarray().copy()
         y = op(x)
         if not _same(x.asarray(), keep):
-            raise RuntimeError('input_modified')
+            raise _InputModified('operator input changed by the call: was %s, is %s'
+                                 % (_fmt(keep), _fmt(x.asarray())))
         outs.append(np.array(y.asarray()).reshape(-1))
     return np.array(outs)
 
@@ -657,7 +671,7 @@ def _run_op(cfg):
                                 and _close(ran.max_pt[ax], dom.max_pt[ax])):
                             report(gsite, 'nonuniform_axis_changed', head + ' axis %d' % ax)
                         continue
-                    use_off = off[ax] if off in cands else cands[0][ax]
+                    use_off = off[ax] if off[ax] in [cd[ax] for cd in cands] else cands[0][ax]
                     g0 = dgrid[0] - _grow_left(shape[ax], newshp[ax], use_off) * CELL[ax]
                     ref_grid = g0 + CELL[ax] * np.arange(newshp[ax])
                     if not _close(ran.cell_sides[ax], CELL[ax]):
@@ -727,7 +741,7 @@ def _run_op(cfg):
                                                  EXP[0].astype(dom.dtype)):
                         report(vsite, 'out_call_differs', head + ' got=%s' % _fmt(y.asarray()))
                 except Exception as e:
-                    report(vsite, 'raises:' + type(e).__name__, head + ': call: %r' % (e,))
+                    report(vsite, _exc_symptom(e), head + ': call: %r' % (e,))
                 sigs.add('op:%s:ok' % mode)
             # -------------------------------------------------------------- derivative
             try:
@@ -747,7 +761,7 @@ def _run_op(cfg):
                             report('ResizingOperator.derivative', 'derivative_not_zero_padding',
                                    head + ' got rows %s' % _fmt(GOT))
             except Exception as e:
-                report('ResizingOperator.derivative', 'raises:' + type(e).__name__,
+                report('ResizingOperator.derivative', _exc_symptom(e),
                        head + ': %r' % (e,))
             # -------------------------------------------------------------- adjoint
             if not lin:
@@ -809,7 +823,7 @@ def _run_op(cfg):
                                                     lhs[r][k], _fmt(GOT[r].reshape(shape)),
                                                     wd[k], _fmt(np.unique(wr))))
                 except Exception as e:
-                    report(asite, 'raises:' + type(e).__name__, head + ': %r' % (e,))
+                    report(asite, _exc_symptom(e), head + ': %r' % (e,))
                 # ---------------------------------------------------------- adjoint.inverse
                 if mode == 'constant':
                     try:
@@ -861,7 +875,7 @@ def _run_op(cfg):
                                        head + ' x=%s back=%s' % (_fmt(x0.asarray()),
                                                                  _fmt(back.asarray())))
             except Exception as e:
-                report(isite, 'raises:' + type(e).__name__, head + ': %r' % (e,))
+                report(isite, _exc_symptom(e), head + ': %r' % (e,))
     viol = [{'site': s, 'symptom': y, 'detail': d} for (s, y), d in sorted(first.items())]
     pattern = ''.join('+' if m > n else '-' if m < n else '=' for n, m in zip(shape, newshp))
     sigs.add('op:%s:%s:%s:%s' % (how, offtxt, pattern, 'viol' if viol else 'clean'))
